@@ -953,6 +953,8 @@ def run(tier):
     R.set("hierarchy_trees", hstats.get("hierarchy_trees", 0))
     R.set("hierarchy_visitor_runs", hstats.get("hierarchy_visitor_runs", 0))
     R.set("phase_seconds", phases)
+    # smallest case first per signature (big corpus files are scheduled first for load balance)
+    fails.sort(key=lambda f: len(f[1].get("text", "")) if isinstance(f[1], dict) else 0)
     R.fail_many(regroup(fails))
     names = [s.name for s in sp]
     reached = set(stats.get("classes", {}))
